@@ -15,6 +15,8 @@ pub enum State {
     StoppedAtBreakpoint,
     Running,
     TestFinished,
+    /// no debugger until the `shutdown` request has been answered; one connects before `exit`
+    AttachesAfterShutdown,
 }
 
 #[derive(Clone, Copy, Debug, Hash, PartialEq, Eq, Serialize, Deserialize)]
@@ -25,7 +27,7 @@ pub enum Order {
     CloseStdin,
 }
 
-pub const STATES: [State; 5] = [State::NoDebugger, State::ConnectedIdle, State::StoppedAtBreakpoint, State::Running, State::TestFinished];
+pub const STATES: [State; 6] = [State::NoDebugger, State::ConnectedIdle, State::StoppedAtBreakpoint, State::Running, State::TestFinished, State::AttachesAfterShutdown];
 pub const ORDERS: [Order; 4] = [Order::ShutdownExit, Order::DisconnectShutdownExit, Order::ShutdownDisconnectExit, Order::CloseStdin];
 
 #[derive(Clone, Debug, Hash, PartialEq, Eq, Serialize, Deserialize)]
@@ -79,7 +81,7 @@ pub fn prop(c: &Case, log: &mut CaseLog) -> Verdict {
     let t = Duration::from_secs(10);
     let mut dap: Option<DapClient> = None;
     let mut trace: Vec<String> = vec![];
-    if c.state != State::NoDebugger {
+    if c.state != State::NoDebugger && c.state != State::AttachesAfterShutdown {
         let mut d = match DapClient::connect(port, Duration::from_secs(10)) {
             Some(d) => d,
             None => return Verdict::fail("debug-port-not-listening", format!("port {}", port)),
@@ -132,6 +134,11 @@ pub fn prop(c: &Case, log: &mut CaseLog) -> Verdict {
         Order::ShutdownExit => {
             let r = lsp.request("shutdown", Value::Null, t);
             trace.push(format!("shutdown: {:?}", r.as_ref().map(|_| "ok")));
+            if c.state == State::AttachesAfterShutdown {
+                dap = DapClient::connect(port, Duration::from_secs(5));
+                trace.push(format!("debugger connects after shutdown: {}", dap.is_some()));
+                std::thread::sleep(Duration::from_millis(c.delay_ms));
+            }
             lsp.notify("exit", Value::Null);
         }
         Order::DisconnectShutdownExit => {
@@ -191,7 +198,7 @@ pub fn prop(c: &Case, log: &mut CaseLog) -> Verdict {
 }
 
 pub fn run_check(ctx: &mut Ctx) {
-    ctx.rule = "enumerated: 5 session states (no debugger client; client connected and initialized; launched on the test runner and stopped at a breakpoint; launched and running a long test; short test finished) x 4 orders (shutdown+exit; disconnect, shutdown, exit; shutdown, disconnect, exit; closing the client's end of the pipe without shutdown) x delay draws; oracle: exit status 0 within 10 s and the debug port bindable afterwards; a process that is still alive is a violation only with a deadlock witness (all threads sleeping, no CPU time consumed between two samples), otherwise inconclusive. every case is non-trivial".into();
+    ctx.rule = "enumerated: 6 session states (no debugger client; client connected and initialized; launched on the test runner and stopped at a breakpoint; launched and running a long test; short test finished; a debugger client that connects between `shutdown` and `exit`) x 4 orders (shutdown+exit; disconnect, shutdown, exit; shutdown, disconnect, exit; closing the client's end of the pipe without shutdown) x delay draws; oracle: exit status 0 within 10 s and the debug port bindable afterwards; a process that is still alive is a violation only with a deadlock witness (all threads sleeping, no CPU time consumed between two samples), otherwise inconclusive. every case is non-trivial".into();
     if !have_mos() {
         ctx.health(false, "mos binary not built (MOS_BIN)");
         return;
